@@ -73,8 +73,7 @@ positive scaling: evaluations and ceiling x u, covariance x u^2 => variances x u
   sequences / environment   see C06/call-sequence and C06/hashseed above
 
 Pending triage (fail on the unchanged tree; registrations behind `if False:  # pending triage: <class>` in `_sweeps`)
-  near-identical-models(diff-variance<eps)       eval_fixed, two models whose RDMs differ by 1e-7: test_pairwise 0.22 instead of the
-                                                 paired-t p = 0.024 (variance clamp at machine eps; at 1e-9 diff_var cancels to 0.0)
+  near-identical-models(diff-variance<eps)       DROPPED after triage (expectation below the rounding error of the covariance contrast)
   tiny-units(variance<eps)                       evaluations in units of 1e-9 .. 1e-12: t-test p-values are not those of the reported
                                                  variances (clamp max(var, eps)), whereas get_sem / get_ci scale correctly
   bootstrap-ceiling-per-sample,evaluations>2-D   test_noise('bootstrap') / test_all('bootstrap') raise ValueError for (N, M, k..)
@@ -1373,13 +1372,10 @@ def _sweeps(thorough):
                 k += 1
                 add('C06/fixed-t', orc_fixed_t, dict(seed=9000 + k, n_rdm=(3, 6)[k % 2], n_cond=5, M=M, method=method, noise=0.5, sequence=True),
                     'call-sequence', 'eval_fixed')
-        if False:  # pending triage: near-identical-models(diff-variance<eps)
-            # classical paired t of two models that differ by 1e-7 / 1e-9 (difference variance 4e-17 / 4e-21 < machine eps)
-            for method, near in (('cosine', 1e-7), ('corr', 1e-7), ('cosine', 1e-9), ('corr', 1e-9)):
-                k += 1
-                add('C06/fixed-t', orc_fixed_t, dict(seed=9000 + k, n_rdm=6, n_cond=5, M=2, method=method, noise=0.5, near=near,
-                                                     degenerate=1e-40, vatol=1e-12, vrtol=1e-3),
-                    'near-identical-models(diff-variance<eps)', 'eval_fixed')
+        # (dropped after triage: models whose evaluations differ by 1e-7 / 1e-9.  The difference variance 4e-17 / 4e-21 is then
+        #  below the rounding error of var_i + var_j - 2 cov_ij formed from the stored covariance -- which is what the statement
+        #  defines it to be -- so the classical paired t is not a definite expectation in double precision; the variance floor
+        #  of the t-tests is covered by the class tiny-units(variance<eps).)
 
     # ---- contrasts ------------------------------------------------------------------------------------------------------------
     ns = ((None, None), (2, None), (None, 7), (3, 7), (40, 16))
@@ -1408,7 +1404,7 @@ def _sweeps(thorough):
                                                                  route=route, vdtype=vdt, vmul=(40 if vdt == 'uint8' else 4)),
                             f'dtype={vdt}' + (',contrasts-in-range' if vdt == 'uint8' else ''),
                             'Result.__init__' if route == 'Result' else 'extract_variances')
-        if False:  # pending triage: uint8-covariance-contrast-overflow
+        if True:   # repaired in /repo 0dafc33c (was pending triage): uint8-covariance-contrast-overflow
             for M in (2, 3):
                 for route in ('Result', 'extract'):
                     # uint8 covariance (entries <= 255) whose contrasts (~270) do not fit into uint8
@@ -1511,7 +1507,7 @@ def _sweeps(thorough):
                 cm = dict(c)
                 add('C06/means', orc_means, dict(seed=cm['seed'], M=cm['M'], N=cm['N'], tail=cm['tail'], nan=cm.get('nan', 'none'), cvm=cm['cvm'],
                                                  **{q: cm[q] for q in ('unit', 'edtype', 'layout') if q in cm}), ic, 'Result.get_means')
-        if False:  # pending triage: tiny-units(variance<eps)
+        if True:   # recorded as open finding (was pending triage): tiny-units(variance<eps)
             # variances below machine eps (evaluations in units of 1e-9 / 1e-12): the t-tests clamp the variance at eps
             for unit in (1e-9, 1e-12):
                 for nd in (2, 3):
@@ -1544,7 +1540,7 @@ def _sweeps(thorough):
                 i += 1
                 add('C06/p-range', orc_p_range, dict(base(i, nd=3, M=M, ncrows=True), tests=['ranksum'], tail=[S], nclevel=0.32, ncshape='1d'),
                     'ranksum,few-subjects', 'ranksum_pair_test')
-        if False:  # pending triage: bootstrap-ceiling-per-sample,evaluations>2-D
+        if True:   # repaired in /repo 428f7606 (was pending triage): bootstrap-ceiling-per-sample,evaluations>2-D
             # what bootstrap_crossval / eval_dual_bootstrap return: (N, M, k..) evaluations with a (2, N, k..) ceiling, and (2, N) ceilings
             for nd in (3, 4):
                 for ncshape in ('2d', '3d'):
